@@ -793,6 +793,9 @@ pub fn run(cfg: &Cfg, rep: &mut Report) {
         ctx.check_slice(&seq, a, b, c, false);
         let i = pickv(&mut rng).unwrap_or(0);
         ctx.check_index(&seq, i);
+        // measured right after other sequences of the same size were measured and dropped
+        ctx.check_len(&seq);
+        ctx.check_index(&seq, -1 - (k % 3) as i64);
         ctx.rep.sample("random", 3, || {
             Obj::new().s("expr", &format!("{}{}", seq.literal(), slice_text(a, b, c, false))).render()
         });
